@@ -20,7 +20,9 @@ ASSUME JsonSerialize(IOEnv.OUT, [i \in 1..Len(Cases) |->
 FS_CFG = ("SPECIFICATION Spec\nCONSTANTS MaxParams = {p}\n MaxOrder = {o}\n MaxNumel = {n}\n MaxN = {k}\n"
           "INVARIANT InvExactlyOnce\nINVARIANT InvExactlyOnceAligned\nINVARIANT InvShardsDisjoint\nCHECK_DEADLOCK FALSE\n")
 SHAPES = [[[4, 3], [5]], [[3, 4, 2]], [[7, 2], [3, 3], [4]], [[2, 3, 2, 2], [6]], [[5, 5]], [[6, 2], [2, 2, 3]], [[9], [4, 4]], [[3, 7]],
-          [[6, 10], [10]], [[8, 6]], [[4, 5, 3]], [[5, 8], [3, 8]]]      # the last ones give slabs of several rows that are cut into column blocks
+          [[6, 10], [10]], [[8, 6]], [[4, 5, 3]], [[5, 8], [3, 8]],      # the last ones give slabs of several rows that are cut into column blocks
+          # singleton dimensions (Linear(1, n).weight, 1x1 convolution kernels, broadcast scales): trailing, leading, in the middle
+          [[6, 1], [4]], [[4, 2, 1, 1], [3]], [[5, 1, 1]], [[1, 6], [3, 1], [2, 2]], [[3, 1, 4]], [[1], [7, 1]], [[], [5, 1], [3]]]
 
 
 def make_task(rng, kind):
@@ -40,6 +42,8 @@ def make_task(rng, kind):
             cur[i] = not cur[i]
         masks.append(list(cur))
     t = {"kind": kind, "shapes": shapes, "S": S, "draw": draw, "masks": masks, "seed": rng.randrange(1 << 30), "align": rng.choice([1, 4])}
+    # insertion order of param_to_metadata (nested FSDP units list the root unit's parameters first, model.parameters() does not)
+    t["meta_order"] = rng.sample(range(len(shapes)), len(shapes)) if rng.random() < 0.5 else list(range(len(shapes)))
     if kind == "hsdp":
         t["S"] = min(S, 3)
         t["R"] = rng.choice([1, 2, 2, 4]) if t["S"] <= 2 else rng.choice([1, 2])
@@ -163,7 +167,8 @@ def run(ctx):
     ctx.put("worlds_not_reproduced_on_rerun", sum(1 for r in results if r.get("_flaky_first_run")))
     evaluate(ctx, tasks, results, "C07")
     # real torch FSDP in the loop: its shard metadata must be the spec's flat-parameter model with 16-byte alignment
-    mtasks = attach_spec([{"shapes": rng.choice(SHAPES), "S": rng.choice([1, 2, 3, 4]), "align": 4} for _ in range(16 if quick else 120)])
+    fsdp_shapes = [sh for sh in SHAPES if all(len(x) > 0 for x in sh)]          # FSDP itself rejects 0-D parameters
+    mtasks = attach_spec([{"shapes": rng.choice(fsdp_shapes), "S": rng.choice([1, 2, 3, 4]), "align": 4} for _ in range(16 if quick else 120)])
     for t, r in zip(mtasks, sp.pool_map(dc.fsdp_metadata_task, mtasks, fresh=True)):
         ctx.add("evaluations")
         if "crash" in r:
